@@ -31,6 +31,10 @@ THEOREMS = [
     "GeoVerif.Survey.searchLeft_in_leg",
     "GeoVerif.Survey.desurvey_leg",
     "GeoVerif.Survey.desurvey_station",
+    "GeoVerif.Survey.searchLeft_spec",
+    "GeoVerif.Survey.locs_const",
+    "GeoVerif.Survey.desurvey_piece",
+    "GeoVerif.Survey.desurvey_station_any",
     "GeoVerif.Survey.desurvey_after_station",
     "GeoVerif.Survey.desurvey_zero",
     "GeoVerif.Survey.desurvey_beyond",
@@ -64,7 +68,7 @@ LEVEL_TEXT = (
     "Lean theorems over exact rationals for every sorted augmented table and every depth: depth 0 is the collar (desurvey_zero), "
     "within a leg the position moves by (b-a) x the leg deviation, which is the mean of the two station directions and the "
     "direction itself where they coincide (desurvey_leg, dev_mean, dev_straight), the left piece reaches the next station and the "
-    "right piece starts there - continuity (desurvey_station, desurvey_after_station, locs_succ), beyond the last survey the last "
+    "right piece starts there - continuity (desurvey_station, desurvey_after_station, locs_succ; with repeated depths: every depth inside the table is computed from the last station strictly above it and the position at any station's depth is that station's position, desurvey_piece, desurvey_station_any), beyond the last survey the last "
     "leg's direction continues (desurvey_beyond); re-sorting by any permutation with the inverse applied to cells keeps every cell "
     "on the same positions (sort_cells_coords). Data additions (model Depths = validate_depth_data + match_values/merge_arrays + "
     "sort_depths): after one add_data call with any number of depth logs, sampled at new or existing depths in any order, every "
@@ -72,7 +76,7 @@ LEVEL_TEXT = (
     "for any permutation of the vertices (sortBy_att). Tied to the code by exact-rational differential runs of desurvey and of "
     "sequences of add_data calls; interval tables by oracle."
 )
-LEVEL_NOTE = "Trusted: Lean kernel (+Mathlib ring/linarith/field_simp), harness, NumPy. Partial: continuity at stations with repeated depths is covered by correspondence, the theorem assumes t_i < t_{i+1}."
+LEVEL_NOTE = "Trusted: Lean kernel (+Mathlib ring/linarith/field_simp), harness, NumPy. Continuity at stations holds for tables with repeated depths too (desurvey_piece, desurvey_station_any, locs_const). Not proved: trigonometry of the station directions, float rounding."
 TECHNIQUE = "Lean 4 proof (induction on the survey table, linear arithmetic over Rat; induction over the samples and logs of add_data calls, permutation argument for the sort) on executable models of desurvey and of the depth-log bookkeeping + exact-rational differential correspondence"
 
 TOL = Fraction(1, 2 ** 36)
